@@ -523,3 +523,88 @@ pub fn now() -> Instant {
 }
 
 pub use crate::internal::worker::resources::verif_hooks::{SimAllocator, SimRequest};
+
+/// Handshake frames as plain data and adversarial edits of them (the message types are crate-private).
+pub mod auth {
+    use crate::internal::messages::auth::{
+        AuthenticationError, AuthenticationMode, AuthenticationRequest, AuthenticationResponse,
+        Challenge, EncryptionResponse,
+    };
+    use crate::internal::transfer::auth::{deserialize, serialize};
+    use bytes::Bytes;
+    use serde_json::{Value, json};
+    use std::borrow::Cow;
+
+    pub fn protocol_builder() -> tokio_util::codec::length_delimited::Builder {
+        crate::internal::transfer::transport::make_protocol_builder()
+    }
+
+    pub fn describe_request(frame: &[u8]) -> Value {
+        match deserialize::<AuthenticationRequest>(frame) {
+            Ok(r) => json!({"ok": true, "proto": r.protocol, "role": r.role,
+                            "challenge": match &r.mode { AuthenticationMode::NoAuth => Value::Null, AuthenticationMode::Encryption(c) => json!(c.challenge) }}),
+            Err(_) => json!({"ok": false}),
+        }
+    }
+
+    pub fn describe_response(frame: &[u8]) -> Value {
+        match deserialize::<AuthenticationResponse>(frame) {
+            Ok(AuthenticationResponse::NoAuth) => json!({"ok": true, "kind": "noauth"}),
+            Ok(AuthenticationResponse::Error(e)) => json!({"ok": true, "kind": "error", "msg": e.message}),
+            Ok(AuthenticationResponse::Encryption(_)) => json!({"ok": true, "kind": "enc"}),
+            Err(_) => json!({"ok": false}),
+        }
+    }
+
+    /// A request with freely chosen fields; `challenge_from` copies the challenge of another request frame.
+    pub fn forge_request(proto: u32, role: &str, challenge: Option<Vec<u8>>) -> Bytes {
+        let r = AuthenticationRequest {
+            protocol: proto,
+            role: Cow::Owned(role.to_string()),
+            mode: match challenge {
+                None => AuthenticationMode::NoAuth,
+                Some(challenge) => AuthenticationMode::Encryption(Challenge { challenge }),
+            },
+        };
+        serialize(&r).unwrap().into()
+    }
+
+    pub fn challenge_of(frame: &[u8]) -> Option<Vec<u8>> {
+        match deserialize::<AuthenticationRequest>(frame).ok()?.mode {
+            AuthenticationMode::NoAuth => None,
+            AuthenticationMode::Encryption(c) => Some(c.challenge),
+        }
+    }
+
+    pub fn forge_response(kind: &str) -> Bytes {
+        let r = match kind {
+            "noauth" => AuthenticationResponse::NoAuth,
+            _ => AuthenticationResponse::Error(AuthenticationError { message: "forged".to_string() }),
+        };
+        serialize(&r).unwrap().into()
+    }
+
+    /// Flips one bit inside the sealed payload (or the nonce) of an encrypted response.
+    pub fn tamper_response(frame: &[u8], nonce: bool) -> Option<Bytes> {
+        match deserialize::<AuthenticationResponse>(frame).ok()? {
+            AuthenticationResponse::Encryption(mut e) => {
+                if nonce {
+                    let n = e.nonce.len();
+                    e.nonce[n / 2] ^= 0x10;
+                } else {
+                    let n = e.response.len();
+                    e.response[n / 2] ^= 0x01;
+                }
+                Some(
+                    serialize(&AuthenticationResponse::Encryption(EncryptionResponse {
+                        response: e.response,
+                        nonce: e.nonce,
+                    }))
+                    .unwrap()
+                    .into(),
+                )
+            }
+            _ => None,
+        }
+    }
+}
